@@ -85,6 +85,9 @@ impl Context for SlowContext {
     }
 }
 
+/// number of expensive sources at the end of `sources()` (not under Miri)
+const HEAVY: usize = 4;
+
 fn sources() -> Vec<String> {
     // the interpreter is ~1000x slower: same shapes, smaller sizes (still above the usual inline-buffer sizes 16 / 32)
     let (deep1, deep2, lit, wide, chain) = if cfg!(miri) { (18, 12, 34, 17, 17) } else { (60, 48, 40, 24, 20) };
@@ -116,7 +119,10 @@ fn sources() -> Vec<String> {
         "zsign((0.0, 1))".to_string(),
         "zsign((-0.0, 1))".to_string(),
     ];
+    // a user function that uses the library itself (and its builtins) while other threads resolve names never seen before
+    v.push("reenter(a) + a".to_string());
     if !cfg!(miri) {
+        // (these four stay the last sources: they are expensive and evaluated in a burst of their own, see HEAVY)
         // builtins on arguments large enough for an implementation to split the work: thousands of elements with equal
         // extremes of both numeric types at many positions, and a needle list whose first element is found and whose
         // last element is of a type the function rejects (the sequential answer is the type error)
@@ -125,8 +131,6 @@ fn sources() -> Vec<String> {
         v.push("contains_any(hay, needles)".to_string());
         v.push("contains(big, 1.0) && contains_any(hay, (5, 7, 4099))".to_string());
     }
-    // a user function that uses the library itself (and its builtins) while other threads resolve names never seen before
-    v.push("reenter(a) + a".to_string());
     if cfg!(miri) {
         // one of the two many-builtin expressions is enough for the interpreter, and the wide tuple covers wide nodes
         v.retain(|s| !s.starts_with("len(str::trim(s))") && !s.starts_with("twice(a + 1); "));
@@ -280,6 +284,8 @@ fn main() {
         let hot = srcs.iter().position(|s| s.starts_with("(1, 2, 3")).expect("the literal lookup table is one of the sources");
         let slow_tree = srcs.iter().position(|s| s.starts_with("slow(a) + slow(c)")).expect("the slow-function expression is one of the sources");
         let zsign0 = srcs.iter().position(|s| s == "zsign(0.0)").expect("the sign-of-zero expressions are among the sources");
+        // the expensive large-argument sources are the last HEAVY ones; the rotations below use the others
+        let n_light = srcs.len() - if cfg!(miri) { 0 } else { HEAVY };
         let reenter_tree = srcs.iter().position(|s| s == "reenter(a) + a").expect("the re-entrant function expression is one of the sources");
         // a shared tree that introduces identifiers no context and no tree of this process has used before; every
         // thread evaluates it on a context of its own, all at the same moment
@@ -340,6 +346,21 @@ fn main() {
                         break;
                     }
                 }
+                // large-argument builtins: every fourth round, one expression per thread, on the long-lived shared context and
+                // on a shared plain context
+                if !cfg!(miri) && round % 4 == 0 {
+                    let ti = n_light + tid % HEAVY;
+                    for (what, got, want) in [
+                        ("the long-lived context", format!("{:?}", trees[ti].eval_with_context(&*persistent)), &expected[ti][0]),
+                        ("shared context 0", eval_on(&trees[ti], &ctxs[0]), &expected[ti][0]),
+                    ] {
+                        total.fetch_add(1, Ordering::Relaxed);
+                        if got != *want {
+                            mismatches.fetch_add(1, Ordering::Relaxed);
+                            out.push(format!("MISMATCH thread {} round {} tree {} (large arguments) on {}: expected {} got {}", tid, round, ti, what, want, got));
+                        }
+                    }
+                }
                 // some threads call a function that re-enters the library, the others resolve function names the process has
                 // never seen (whatever the library remembers about names is being written while it is being read)
                 for k in 0..(if cfg!(miri) { 2 } else { 12 }) {
@@ -388,7 +409,7 @@ fn main() {
                 }
                 for e in 0..evals {
                     if e % 4 == 1 {
-                        let ti = if e % 8 == 1 { slow_tree } else { (e + tid) % trees.len() };
+                        let ti = if e % 8 == 1 { slow_tree } else { (e + tid) % n_light };
                         let got = format!("{:?}", trees[ti].eval_with_context(&*persistent));
                         total.fetch_add(1, Ordering::Relaxed);
                         if got != expected[ti][0] {
@@ -397,7 +418,7 @@ fn main() {
                         }
                     }
                     if e % 3 == 0 {
-                        let ti = (e / 3 + tid) % trees.len();
+                        let ti = (e / 3 + tid) % n_light;
                         let got = format!("{:?}", trees[ti].eval_with_context(&own));
                         total.fetch_add(1, Ordering::Relaxed);
                         if got != expected[ti][own_variant] {
@@ -406,7 +427,7 @@ fn main() {
                         }
                     }
                     // thread-specific order; the same shared tree meets different contexts back to back
-                    let ti = (e + tid + r.below(2)) % trees.len();
+                    let ti = (e + tid + r.below(2)) % n_light;
                     let ci = r.below(ctxs.len());
                     let got = eval_on(&trees[ti], &ctxs[ci]);
                     total.fetch_add(1, Ordering::Relaxed);
